@@ -3,7 +3,7 @@
 Families:
   magic    every registered function name (MagicResolver attributes, '#'-parser functions, dummy resolvers, magic_nodes.registry,
            and every alias of those names in the magicwords of all 12 bundled sites) x argument count 0..2 (quick) / 0..3 (thorough,
-           reduced shape list for count 3) x 20 argument shapes, colon form and pipe form
+           reduced shape list for count 3) x 23 argument shapes, colon form and pipe form
   cycles   all universes of <=2 (quick) / <=3 (thorough) templates whose bodies are sequences of <=2 call/parameter items: every call
            graph incl. self loops and 2-/3-cycles
   syntax   every string over the 24-symbol template alphabet up to length 4 (quick) / 5 (thorough)
@@ -16,11 +16,14 @@ from mc.core.space import Seqs, Product, Concat, Items, Space
 from mc.props.c01 import LangDB
 
 SHAPES = ["", "a", " a ", "0", "1", "-1", "1.5", "1e3", "99999999", "99999999999999999999", "a/b/c", "../x", "{{PAGENAME}}",
-          "{{{1}}}", "a=b", "<b>", "9^9^9^9", "1e999999999", "2^0.5^-1", "1/0"]
+          "{{{1}}}", "a=b", "<b>", "9^9^9^9", "1e999999999", "2^0.5^-1", "1/0", "5 round -99999999", "xrY", "5000-01-01"]
 SHAPES3 = ["", "a", "1", "99999999", "a=b"]
 SIGMA_T = ["{{", "}}", "{{{", "}}}", "{", "}", "|", "=", ":", "#if:", "#switch:", "a", " ", "\n", "[[", "]]", "<noinclude>",
            "</noinclude>", "<includeonly>", "</includeonly>", "<onlyinclude>", "</onlyinclude>", "<nowiki>", "</nowiki>"]
 CYCLE_ITEMS = ["w", "{{{1}}}", "{{{1|{{A}}}}}", "{{A}}", "{{B}}", "{{C}}", "{{A|{{B}}}}", "{{#if:{{{1|}}}|{{A}}|{{B}}}}", "{{missing}}"]
+# calls routed through the branches of every conditional parser function (fan-out 2), and an argument that doubles per level
+CYCLE_ITEMS_X = CYCLE_ITEMS + ["{{#ifexpr:1|{{A}}{{A}}}}", "{{#ifexpr:0|x|{{A}}{{B}}}}", "{{#ifeq:a|a|{{A}}{{A}}}}", "{{#switch:a|a={{A}}{{A}}}}",
+                               "{{#iferror:{{A}}|{{A}}|{{A}}{{B}}}}", "{{#if:x|{{A}}{{A}}}}", "{{A|{{{1}}}{{{1}}}}}", "{{#ifexist:A|{{A}}{{A}}}}"]
 LANGS = ["en", "de", "es", "fr", "it", "ja", "nl", "no", "pl", "pt", "simple", "sv"]
 
 
@@ -79,7 +82,7 @@ class C03(InputProp):
     id = "C03"
     rule = ("families magic/alias/cycles/syntax (see mc/props/c03.py), each enumerated completely on Expander(text, pagename, wikidb)."
             "expandTemplates(); distinct = distinct (family, outcome text) classes")
-    assumptions = ("argument shapes are a fixed list of 20 (5 for the third argument)",
+    assumptions = ("argument shapes are a fixed list of 23 (5 for the third argument)",
                    "the 'out of proportion' clause is judged as: CPU <= 2 s and output <= 64 x input + 4096 characters per expansion")
     chunk = 2000
     soft_timeout = 20.0
@@ -98,6 +101,7 @@ class C03(InputProp):
         fams = [Product(names, ArgTuples(maxc), ["colon", "pipe"], name="magic"),
                 Product(Items(aliases), ArgTuples(1 if tier == "quick" else 2), ["colon", "pipe"], name="alias")]
         bodies = Seqs(CYCLE_ITEMS, 2, minlen=1)
+        fams.append(Product(Seqs(CYCLE_ITEMS_X, 2, minlen=1), Seqs(CYCLE_ITEMS_X, 1, minlen=1), ["{{A}}", "{{A|x}}"], name="cyclesx"))
         if tier == "quick":
             fams.append(Product(bodies, bodies, [b for b in ["{{A}}", "{{A|x}}", "{{B|{{A}}}}"]], name="cycles2"))
             fams.append(Seqs(SIGMA_T, 4, name="syntax"))
@@ -126,7 +130,7 @@ class C03(InputProp):
         if fam == "alias":
             (lang, name), args, form = c
             return self.call(name, args, form), self.db(lang), 0
-        if fam == "cycles2":
+        if fam in ("cycles2", "cyclesx"):
             a, b, page = c
             pages = {"A": "".join(a), "B": "".join(b)}
             return page, self.db("en", pages), sum(map(len, pages.values()))
